@@ -153,8 +153,9 @@ def coherent(im: Impl):
     return probs
 
 class Gen:
-    def __init__(self, rnd, spec, weights, explicit_attacker_ids=True, extras=True):
+    def __init__(self, rnd, spec, weights, explicit_attacker_ids=True, extras=True, names=()):
         self.r, self.spec, self.w = rnd, spec, weights
+        self.extra_names = list(names)         # further asset names to draw from (the predictions below see them)
         self.explicit_attacker_ids, self.with_extras = explicit_attacker_ids, extras
         self.by = {a['name']: a for a in spec['assets']}
         self.concrete = [a['name'] for a in spec['assets'] if not a['isAbstract']] or [a['name'] for a in spec['assets']]
@@ -185,6 +186,7 @@ class Gen:
             if k == 'add_asset':
                 t = r.choice(self.concrete)
                 name = r.choice(['A', 'A', 'B', 'A:2', 'B:1', None, None, f'n{self.na}', f'n{self.na}', f'{r.choice(self.concrete)}:{r.randint(0, 5)}'])
+                if self.extra_names and name in ('A', 'B') and r.random() < 0.5: name = r.choice(self.extra_names)
                 aid = None
                 if r.random() < 0.4:
                     # ids of removed assets are re-used on purpose: a removed object and a live one then share an id
